@@ -45,7 +45,8 @@ func init() {
 			"gas-limit modes (ample, = intrinsic, intrinsic + few, = consumption of a rehearsal, a little less, = rest of block, = balance at price 1) x prices (0, 1, small, gwei, large, > 2^64) x value modes (0, 1, drawn, everything left after prepaying) x data of every zero/non-zero mix; " +
 			"every transaction is judged from state dumps before/after, receipt and trace; one-unit-invalid variants are run on copies at a third of the positions. " +
 			"leg inv: a case is a world, a prefix chain of drawn height, a funding block that gives reserved keys exactly gas x price (-1) and gas x price + value, and a scenario block with the boundary transaction at a drawn position between other transactions; " +
-			"each invalid variant is assembled into the twin block (transaction root recomputed with the reference trie) and given to InsertChain of a second node, alone or behind the funding block, then the twin. " +
+			"each invalid variant is assembled into the twin block (transaction root recomputed with the reference trie) and given to InsertChain of a second node, alone or behind the funding block; then the twin's honest body under headers whose gas used is the sum over the receipts +1, -1, +n and = the block gas limit (each must be refused); then the twin. " +
+			"Every imported block and its receipts are read back from the node: header gas used == last cumulative gas == sum of receipt gas. " +
 			"A transaction is non-trivial when it was executed and judged; distinct = (template, modes, price, value, gas limit, status, data).",
 		Legs: func(tier string) []fw.Leg {
 			return []fw.Leg{
@@ -67,7 +68,7 @@ func init() {
 				"invalid_block_rejected_nonce_too_high": 30, "invalid_block_rejected_nonce_too_low": 30, "invalid_block_rejected_cannot_prepay_gas": 30,
 				"invalid_block_rejected_cannot_pay_value_after_gas": 30, "invalid_block_rejected_gas_limit_below_intrinsic": 30, "invalid_block_rejected_gas_limit_above_block_rest": 30,
 				"twin_block_accepted": 100, "twin_exactly_enough_for_gas": 10, "twin_exactly_enough_for_gas_and_value": 10, "twin_gas_equals_intrinsic": 10, "twin_gas_equals_block_rest": 10,
-				"invalid_block_behind_valid_block": 30, "empty_sender_touched_then_sends": 20, "existing_empty_account_touched_in_reverted_frame": 50,
+				"invalid_block_behind_valid_block": 30, "forged_gas_used_rejected": 30, "forged_gas_used_rejected_gas_used_plus_1": 10, "stored_block_gas_compared": 1000, "empty_sender_touched_then_sends": 20, "existing_empty_account_touched_in_reverted_frame": 50,
 			}
 		},
 		AnchorFiles: []string{"core/state_transition.go", "core/state_processor.go", "core/gaspool.go", "core/vm/evm.go", "core/types/receipt.go", "core/block_validator.go"},
